@@ -72,6 +72,7 @@ def gen_world(rng, profile, tier):
         "xobj_input": rng.random() < 0.6,
         "nd_input": rng.random() < 0.7,
         "dims_form": rng.random() < 0.6,
+        "cyc3": rng.random() < 0.2,
         "relocate": rng.random() < 0.6,
         "dirty": rng.random() < 0.6,
         "max_types": rng.choice([3, 5, 8]),
@@ -574,6 +575,17 @@ class ObjSim:
         "C05": ["padding bytes and free space are never compared"],
     }
 
+    world_cls = None  # set below (ObjWorld); engines built on ObjSim override these
+    step_cls = None
+    source_cls = None
+
+    def gen_world(self, rng, profile, tier):
+        return gen_world(rng, profile, tier)
+
+    def make_world(self, spec, res):
+        """Build the world; may record violations in res (returns None then)."""
+        return self.world_cls(spec)
+
     def run(self, prop, profile, rng=None, replay=None, tier="quick"):
         res = RunResult()
         res.profile = profile
@@ -581,23 +593,25 @@ class ObjSim:
             spec = replay["world"]
             src = ListSource(replay["ops"])
         else:
-            spec = gen_world(rng, profile, tier)
-            src = GenSource(rng, profile, spec)
+            spec = self.gen_world(rng, profile, tier)
+            src = self.source_cls(rng, profile, spec)
         old_default = (xo.typeutils.context_default, xo.hybrid_class.context_default)
-        w = ObjWorld(spec)
+        ops = []
+        res.replay = {"world": spec, "ops": ops, "profile": profile, "engine": self.name}
+        w = self.make_world(spec, res)
+        if w is None:
+            return res
         default_ctx = seams.SimContext(plan={"on_new": w._on_new})
         xo.typeutils.context_default = default_ctx
         xo.hybrid_class.context_default = default_ctx
         w.default_ctx = default_ctx
-        ops = []
-        res.replay = {"world": spec, "ops": ops, "profile": profile, "engine": "objsim"}
         own = OWN_OPS.get(prop, ())
         try:
             while True:
                 op = src.next(w)
                 if op is None:
                     break
-                st = Step(w, op, res, prop)
+                st = self.step_cls(w, op, res, prop)
                 try:
                     st.execute()
                 except Skip:
@@ -640,7 +654,7 @@ class Step:
         kind = self.kind
         fn = getattr(self, "op_" + kind)
         self.pre = w.bytes_of()
-        self.pre_layout = self.layouts() if kind in ("set", "bind", "misuse", "grow", "grow_until", "raw_alloc", "raw_free", "drop_handle") else None
+        self.pre_layout = self.layouts() if kind in ("set", "bind", "misuse", "grow", "grow_until", "raw_alloc", "raw_free", "drop_handle", "c_read", "c_set", "c_call") else None
         for b in w.bufs:
             b._ctl.drain()
         fn()
@@ -685,8 +699,8 @@ class Step:
     def oracle_bytes(self):
         w = self.w
         post = w.bytes_of()
-        tagmap_other = {"construct": "C03", "set": "C10", "bind": "C10", "copy": "C09", "misuse": "C11", "restart": "C20", "json_rebuild": "C03"}
-        tagmap_out = {"construct": "C03", "set": "C03", "bind": "C03", "copy": "C03", "misuse": "C11", "restart": "C20", "json_rebuild": "C03"}
+        tagmap_other = {"construct": "C03", "set": "C10", "bind": "C10", "copy": "C09", "misuse": "C11", "restart": "C20", "json_rebuild": "C03", "c_read": "C02", "c_set": "C07", "c_call": "C17"}
+        tagmap_out = {"construct": "C03", "set": "C03", "bind": "C03", "copy": "C03", "misuse": "C11", "restart": "C20", "json_rebuild": "C03", "c_read": "C02", "c_set": "C07", "c_call": "C17"}
         for i, (a, b) in enumerate(zip(self.pre, post)):
             n = min(len(a), len(b))
             if a[:n] == b[:n]:
@@ -1112,7 +1126,7 @@ class Step:
         w = self.w
         kind = self.kind
         raws = None
-        step_prop = {"construct": "C01", "set": "C10", "bind": "C08", "copy": "C09", "misuse": "C11", "restart": "C20", "json_rebuild": "C19"}
+        step_prop = {"construct": "C01", "set": "C10", "bind": "C08", "copy": "C09", "misuse": "C11", "restart": "C20", "json_rebuild": "C19", "c_read": "C02", "c_set": "C07", "c_call": "C17"}
         for o in w.live_objs():
             if self.viols:
                 break
@@ -1180,7 +1194,7 @@ class Step:
                 if lay is not None and post.get(k) is not None and post[k] != lay:
                     a = [x for x in lay if x not in post[k]][:2]
                     b = [x for x in post[k] if x not in lay][:2]
-                    prop = {"set": "C10", "bind": "C08", "misuse": "C11"}.get(kind, "C10")
+                    prop = {"set": "C10", "bind": "C08", "misuse": "C11", "c_read": "C02", "c_set": "C07", "c_call": "C17"}.get(kind, "C10")
                     self.viol(prop, "layout_of_existing_object_changed", [kind, self.feat()], f"object {k}: before {a} after {b}")
                     break
 
@@ -1211,6 +1225,11 @@ class Step:
                     rec(x)
 
         rec(snap)
+
+
+ObjSim.world_cls = ObjWorld
+ObjSim.step_cls = Step
+ObjSim.source_cls = GenSource
 
 
 def _form(v):
